@@ -9,6 +9,7 @@ Core Lean only.
 import IrVerif.Lemmas.AtomicSave
 import IrVerif.Lemmas.AtomicSaveLinks
 import IrVerif.Lemmas.AtomicSaveConc
+import IrVerif.Lemmas.AtomicSaveNest
 namespace IrVerif.AtomicSave
 
 /-- **C08_crash** (every crash point, incl. mid-write and crashes while the exception handlers
@@ -1290,5 +1291,180 @@ example :
     allDone 2 r.final = true ∧ (r.final.procs 0).loc.fs.isDir .tmpDir = true := by decide
 /-- the pre-flight refuses when a shard name is taken -/
 example : (saveShardedConc 420 [serialJob false ("m.data", [])] (exSched false) exSt).refused = true := by decide
+
+
+/-! ## Fourth deepening round: inner parallel writers inside concurrent shards (two levels)
+
+Model: `Model/AtomicSaveNest.lean`; helper lemmas: `Lemmas/AtomicSaveNest.lean`. -/
+
+def NVisited (r : NRes) (c : NCSt) : Prop := c = r.final ∨ ∃ st ∈ r.steps, c = st.st
+
+theorem nest_visited_inv (newMode : Nat) (jobs : List NJob) (sched : List NPick) (s0 : St) (h0 : WF s0)
+    (hok : ∀ j ∈ jobs, jobOk newMode j = true) :
+    ∀ c, NVisited (saveShardedNest newMode jobs sched s0) c → NCInv newMode jobs s0 c := by
+  intro c hc
+  unfold saveShardedNest at hc
+  split at hc
+  · rcases hc with rfl | ⟨st, hst, _⟩
+    · exact ncinv_init newMode jobs s0 h0
+    · simp at hst
+  · have h := nrun_inv newMode jobs s0 hok sched _ (ncinv_init newMode jobs s0 h0)
+    rcases hc with rfl | ⟨st, hst, rfl⟩
+    · exact h.1
+    · exact h.2 st hst
+
+/-- **C08_sharded_concurrent_nested_crash** (shard drivers x inner workers, 874-911 around 606-666).  The
+shard saves run concurrently AND a shard's writer may be the parallel writer: every shard has a driver thread
+(`mkdtemp`, prelude, waiting for its pool, closing the handles, `os.replace`, clean-up) and any number of inner
+workers (take the task at the front of the queue, open a handle, call-back, seek, write chunk by chunk — all on
+that shard's own temporary file).  For every list of shards whose jobs are well formed (`jobOk`, decidable,
+evaluated on every compared run: the driver's own effects create the file, every task's range lies inside the
+preallocated file, overlapping ranges agree), every two-level schedule — which thread of which shard performs
+its next effect, in any order, each effect succeeding or failing (a write after any number of bytes), a
+failed task's siblings running on, queued tasks being started or dropped, the handlers interleaved like
+everything else — and every state `c` the run visits (= every crash point) or ends in:
+
+* the pre-flight refuses iff a shard destination exists, and then not a single effect is performed;
+* every file that existed before still has its name, its inode, its bytes and its mode;
+* every caller path holds exactly what it held before, or it is the destination of a shard, did not exist
+  before, and holds exactly the complete bytes of that shard (`nBytes`: every tensor's bytes at its offset in a
+  file of the preallocated size — a function of the job alone, whatever the interleaving of the inner
+  workers was; `= image` of the tensors for a serially written shard, `C08_nested_bytes_serial`);
+* no tensor has been invalidated or released. -/
+theorem C08_sharded_concurrent_nested_crash (newMode : Nat) (jobs : List NJob) (sched : List NPick) (s0 : St)
+    (h0 : WF s0) (hok : ∀ j ∈ jobs, jobOk newMode j = true) :
+    ((saveShardedNest newMode jobs sched s0).refused = jobs.any (fun j => existsP s0.fs (.user j.dest))) ∧
+    ((saveShardedNest newMode jobs sched s0).refused = true →
+      (saveShardedNest newMode jobs sched s0).steps = [] ∧ (saveShardedNest newMode jobs sched s0).final.sh = s0) ∧
+    ∀ c, NVisited (saveShardedNest newMode jobs sched s0) c →
+      (∀ n i, s0.fs.file (.user n) = some i →
+        c.sh.fs.file (.user n) = some i ∧ c.sh.fs.data i = s0.fs.data i ∧ c.sh.fs.mode i = s0.fs.mode i) ∧
+      (∀ n, content c.sh (.user n) = content s0 (.user n) ∨
+        ∃ j ∈ jobs, j.dest = n ∧ content s0 (.user n) = none ∧
+          content c.sh (.user n) = some (nBytes newMode j)) ∧
+      c.sh.valid = s0.valid ∧ c.sh.mapped = s0.mapped := by
+  refine ⟨?_, ?_, ?_⟩
+  · unfold saveShardedNest; split <;> simp_all
+  · unfold saveShardedNest; split <;> simp
+  · intro c hc
+    have hi := nest_visited_inv newMode jobs sched s0 h0 hok c hc
+    cases hany : jobs.any (fun j => existsP s0.fs (.user j.dest)) with
+    | true =>
+      have hc' : c.sh = s0 := by
+        unfold saveShardedNest at hc
+        simp only [hany, if_true] at hc
+        rcases hc with rfl | ⟨st, hst, _⟩
+        · rfl
+        · simp at hst
+      rw [hc']
+      exact ⟨fun n i hn => ⟨hn, rfl, rfl⟩, fun n => Or.inl rfl, rfl, rfl⟩
+    | false =>
+      have hj : ∀ j ∈ jobs, s0.fs.file (.user j.dest) = none := by
+        intro j hjm
+        have := List.any_eq_false.mp hany j hjm
+        simp only [existsP, Bool.or_eq_true, not_or] at this
+        cases hf : s0.fs.file (.user j.dest) with
+        | none => rfl
+        | some i => simp [hf] at this
+      refine ⟨?_, ?_, hi.valid, hi.mapped⟩
+      · intro n i hn
+        rcases hi.each n with ho | ⟨j, hjm, hjd, _⟩
+        · exact ⟨by rw [ho, hn], hi.data i (h0.named _ _ hn), hi.mode i (h0.named _ _ hn)⟩
+        · rw [← hjd, hj j hjm] at hn; simp at hn
+      · intro n
+        rcases hi.each n with ho | ⟨j, hjm, hjd, i, hfi, _, hb⟩
+        · left
+          simp only [content, ho]
+          cases hf : s0.fs.file (.user n) with
+          | none => rfl
+          | some i => simp [hi.data i (h0.named _ _ hf)]
+        · right
+          refine ⟨j, hjm, hjd, ?_, ?_⟩
+          · simp [content, ← hjd, hj j hjm]
+          · simp [content, hfi, hb]
+
+/-- **C08_nested_bytes_serial**: a serially written shard is a well-formed job of the two-level model and its
+complete bytes are the image of its tensors (the "complete new bytes" of `C08_new_is_image`). -/
+theorem C08_nested_bytes_serial (newMode : Nat) (cb : Bool) (d : String) (ts : List Tensor) :
+    jobOk newMode (serNJob cb (d, ts)) = true ∧ nBytes newMode (serNJob cb (d, ts)) = image ts := by
+  have h := newBytes_serial newMode cb d ts
+  have hpe : preEnd newMode (serNJob cb (d, ts)) = bodyEnd newMode (serialJob cb (d, ts)) := rfl
+  simp only [newBytes] at h
+  cases hf : (bodyEnd newMode (serialJob cb (d, ts))).fs.file .tmpFile with
+  | none => simp [hf] at h
+  | some t =>
+    simp only [hf, Option.map_some, Option.some.injEq] at h
+    have hpb : preBytes newMode (serNJob cb (d, ts)) = image ts := by
+      simp only [preBytes, hpe, hf]
+      exact h
+    constructor
+    · have : ((preEnd newMode (serNJob cb (d, ts))).fs.file .tmpFile).isSome = true := by rw [hpe, hf]; rfl
+      simp only [jobOk, this, Bool.true_and]
+      simp [serNJob]
+    · apply bytes_ext
+      · rw [nBytes_length, hpb]
+      · intro x hx
+        rw [nBytes_length] at hx
+        rw [nBytes_getD _ _ x hx, tgt_uncovered _ _ x (by intro tk htk; simp [serNJob] at htk), hpb]
+
+/-- **C08_nested_bytes_parallel**: the complete bytes of a shard with an inner parallel writer: a file of the
+preallocated size (`total_size` 617-620) that holds, at every position, the byte of the tensor whose range
+contains the position, and zero in the holes. -/
+theorem C08_nested_bytes_parallel (newMode : Nat) (cb : Bool) (d : String) (ts : List Tensor) :
+    (nBytes newMode (parNJob cb (d, ts))).length = totalSize ts ∧
+    ∀ x, x < totalSize ts → (nBytes newMode (parNJob cb (d, ts))).getD x 0 =
+      match (tasksFrom 0 ts).find? (fun t => t.covers x) with
+      | some t => t.bytes.getD (x - t.off) 0
+      | none => 0 := by
+  have hpb : preBytes newMode (parNJob cb (d, ts)) = List.replicate (totalSize ts) 0 := by
+    simp [preBytes, preEnd, parNJob, apply, emptySt, emptyFS, upd, resize]
+  constructor
+  · rw [nBytes_length, hpb]; simp
+  · intro x hx
+    rw [nBytes_getD _ _ x (by rw [hpb]; simpa using hx)]
+    simp only [tgtByte, hpb]
+    show (match (tasksFrom 0 ts).find? (fun t => t.covers x) with
+      | some t => t.bytes.getD (x - t.off) 0
+      | none => (List.replicate (totalSize ts) 0).getD x 0) = _
+    split <;> simp [List.getD_eq_getElem?_getD, hx]
+
+/-! ### Non-vacuity of the two-level theorem -/
+
+/-- shard 0 has an inner parallel writer (two tensors, the second in two chunks), shard 1 is written serially -/
+def exNJobs : List NJob :=
+  [parNJob false ("a-1", [⟨0, [[7, 7]], none⟩, ⟨2, [[8], [9]], none⟩]), serNJob false ("a-2", [⟨0, [[5]], none⟩])]
+
+example : ∀ j ∈ exNJobs, jobOk 420 j = true := by decide
+example : exNJobs.map (nBytes 420) = [[7, 7, 8, 9], [5]] := by decide
+
+/-- both levels interleaved: the two drivers alternate; inside shard 0 the workers with handles 0 and 1 alternate
+(handle 1 writes the second tensor's first chunk before handle 0 has written anything); `fail`: that first chunk
+fails after 0 bytes -/
+def exNSched (fail : Bool) : List NPick :=
+  [⟨0, none, 0, none⟩, ⟨1, none, 0, none⟩, ⟨0, none, 0, none⟩, ⟨1, none, 0, none⟩, ⟨0, none, 0, none⟩, ⟨0, none, 0, none⟩,
+   ⟨0, some 0, 0, none⟩, ⟨0, some 1, 1, none⟩, ⟨1, none, 0, none⟩, ⟨0, some 1, 0, none⟩, ⟨0, some 0, 0, none⟩,
+   ⟨0, some 1, 0, if fail then some 0 else none⟩, ⟨0, none, 0, none⟩, ⟨0, some 0, 0, none⟩, ⟨1, none, 0, none⟩,
+   ⟨0, some 1, 0, none⟩] ++
+  (List.range 12).map (fun i => ⟨i % 2, none, 0, none⟩)
+
+example :
+    let r := saveShardedNest 420 exNJobs (exNSched false) exSt
+    r.refused = false ∧ nAllDone 2 r.final = true ∧ nAnyRaised 2 r.final = false ∧
+    content r.final.sh (.user "a-1") = some [7, 7, 8, 9] ∧ content r.final.sh (.user "a-2") = some [5] ∧
+    content r.final.sh (.user "m.data") = some [1, 2, 3, 4] := by decide
+/-- the driver of shard 0 cannot close the handles while an inner worker is in the middle of its task: its pick
+(the 13th) is skipped, so the trace has one step less than the schedule has picks that could move -/
+example : ((saveShardedNest 420 exNJobs (exNSched false) exSt).steps.map (fun s => (s.k, s.w))).take 14 =
+    [(0, none), (1, none), (0, none), (1, none), (0, none), (0, none), (0, some 0), (0, some 1), (1, none),
+     (0, some 1), (0, some 0), (0, some 1), (0, some 0), (1, none)] := by decide
+/-- handle 1's write fails: its sibling (handle 0) runs on to the end of its task, then the handles are closed, the
+exception leaves, shard 0's destination stays absent, no temporary path remains; shard 1 is complete -/
+example :
+    let r := saveShardedNest 420 exNJobs (exNSched true) exSt
+    nAllDone 2 r.final = true ∧ nAnyRaised 2 r.final = true ∧
+    content r.final.sh (.user "a-1") = none ∧ content r.final.sh (.user "a-2") = some [5] ∧
+    (r.final.procs 0).loc.fs.isDir .tmpDir = false ∧ (r.final.procs 0).loc.fs.file .tmpFile = none ∧
+    (r.steps.filter (fun s => s.k == 0 && s.w == some 0)).length = 3 := by decide
+example : (saveShardedNest 420 [serNJob false ("m.data", [])] (exNSched false) exSt).refused = true := by decide
 
 end IrVerif.AtomicSave
